@@ -209,7 +209,7 @@ func (r *Runner) checkGet(key []byte) {
 		return
 	}
 	r.afterCall("Get", key, nil)
-	r.note("get %q -> %s %s", key, show(got), errName(err))
+	r.note("get %q -> %s %s", key, showN(got), errName(err))
 	if len(key) == 0 {
 		if !errors.Is(err, kv.ErrKeyIsEmpty) {
 			r.fail("get-empty-key", "", "Get(empty key) = %s, %s; want ErrKeyIsEmpty", show(got), errName(err))
@@ -246,6 +246,7 @@ func (r *Runner) doPut(i int, op *Op) {
 		return
 	}
 	r.afterCall("Put", op.Key, val)
+	r.wrote(op.Key, val)
 	r.note("put %q %d -> %s", op.Key, len(val), errName(err))
 	if len(op.Key) == 0 {
 		if !errors.Is(err, kv.ErrKeyIsEmpty) {
@@ -522,7 +523,9 @@ func (r *Runner) doStat() {
 		return
 	}
 	if r.C.Prop == "C14" {
-		if r.allSameFileSize() {
+		// sizes and file counts are layout: comparable only with equal DataFileSize and before any Merge (whose
+		// outcome depends on map-iteration order)
+		if r.allSameFileSize() && r.Cnt["merges"]+r.Cnt["merge_errors"] == 0 {
 			r.note("stat -> %+v", *st)
 		} else {
 			r.note("stat -> keys %d", st.KeyNum)
@@ -560,6 +563,7 @@ func (r *Runner) doBatch(i int, op *Op) {
 				break
 			}
 			r.afterCall("Batch.Put", s.Key, val)
+			r.wrote(s.Key, val)
 			r.note("bput %q %d -> %s", s.Key, len(val), errName(err))
 			switch {
 			case len(s.Key) == 0:
@@ -616,7 +620,7 @@ func (r *Runner) doBatch(i int, op *Op) {
 				break
 			}
 			r.afterCall("Batch.Get", s.Key, nil)
-			r.note("bget %q -> %s %s", s.Key, show(got), errName(err))
+			r.note("bget %q -> %s %s", s.Key, showN(got), errName(err))
 			if !r.judges("batch") && r.C.Prop != "C01" {
 				break
 			}
@@ -728,7 +732,7 @@ func (r *Runner) doIter(i int, op *Op) {
 		}) {
 			return
 		}
-		r.note("iter %s -> %v %q %s", what, valid, key, show(val))
+		r.note("iter %s -> %v %q %s", what, valid, key, showN(val))
 		wantValid := pos < len(keys)
 		if valid != wantValid {
 			r.fail("iter-valid", what, "after %s: Valid() = %v, model says %v (pos %d of %d, prefix %q, reverse %v)", what, valid, wantValid, pos, len(keys), prefix, reverse)
